@@ -175,6 +175,9 @@ fn def_sets() -> Vec<(&'static str, Vec<Macro>)> {
         ("fn-and-obj", vec![m("A", None, "2"), m("F", Some(&["x"]), "(x+1)"), m("G", Some(&["x", "y"]), "(x-y)")]),
         ("param-like-macro-name", vec![m("A", None, "2"), m("P", Some(&["A"]), "(A+1)")]),
         ("param-prefix", vec![m("xx", None, "5"), m("F", Some(&["x"]), "(x+xx)")]),
+        // an object-like macro whose body starts with a parenthesised identifier: not a parameter list
+        ("obj-paren-ident", vec![m("A", None, "2"), m("B", None, "(A)")]),
+        ("obj-paren-ident-chain", vec![m("A", None, "2"), m("B", None, "(A)"), m("C", None, "(B) + (A)")]),
     ]
 }
 
